@@ -47,7 +47,7 @@ def run(chk):
     chk.rule = ('spec/Include.tla: TLC checks OrderIndependent - the directory lookup loop returns the same result for every '
                 'iteration order of the search-directory set (the only place where the specification has a free order). '
                 f'Conformance: every case is assembled in {nseeds} separate interpreter processes with different PYTHONHASHSEED, '
-                'rotated / reversed -I order, different working directories and a scrambled environment, in all four pretty-print '
+                'rotated / reversed -I order, different working directories (every second one holding decoy files named like the included files) and a scrambled environment, in all four pretty-print '
                 'formats plus image only; status, image and the complete pretty-print text (scratch paths normalised) must be '
                 'identical across the processes. Cases: every include-graph configuration of Include.tla (copies of a file in '
                 'different directories carry different bytes, so reading a different copy changes the image), rendered Asm '
@@ -116,6 +116,12 @@ def run(chk):
         for fmt in FORMATS:
             cases.append({'config': isagen.dump(cfg), 'files': {'main.asm': src}, 'pretty': fmt})
             tags.append(('same-type-operands', json.dumps(names), fmt))
+    # the same symbol given twice on the command line (rejected or not, the outcome may not depend on the process), several symbols
+    for defs in (['SYMA=13', 'SYMA=26'], ['SYMA=13', 'SYMB=2', 'SYMC=3', 'SYMD=4'], ['SYMB=1', 'SYMA=5', 'SYMA=5', 'SYMA=7']):
+        for fmt in (None, 'listing'):
+            cases.append({'config': carrier_yaml(), 'files': {'main.asm': 'start:\nld8 SYMA\n#if SYMA == 13\n.byte 1\n#else\n.byte 2, 3\n#endif\nafter:\n.2byte after\n'},
+                          'defines': defs, 'pretty': fmt})
+            tags.append(('command-line symbols', json.dumps(defs), fmt))
     # repository programs (absolute paths: run in place, include dir = their directory)
     ncorp = 0
     for cfg, src, inc in corpus.corpus_programs():
@@ -141,6 +147,10 @@ def run(chk):
         env_extra = {f'VERIF_JUNK_{j}': str(rng.random()) for j in range(k)}
         if k % 2:
             env_extra['TMPDIR'] = cwd
+            # decoys: the working directory is not a search directory, files lying there must not be picked up
+            for nm in ('A.asm', 'B.asm', 'inc1.asm', 'inc2.asm', 'main.asm'):
+                with open(os.path.join(cwd, nm), 'w') as f:
+                    f.write('.byte 99\n')
         procs.append(run_under(cases, seed=[0, 1, 2, 3, 7, 11, 42, 99, 123, 1000, 31337, 65535, 5, 6, 8, 9][k], rotate=k, cwd=cwd, env_extra=env_extra))
     outs = []
     for (p, cpath, opath) in procs:
@@ -153,11 +163,9 @@ def run(chk):
         for f in (cpath, opath):
             if os.path.exists(f):
                 os.unlink(f)
+    import shutil
     for d in cwds:
-        try:
-            os.rmdir(d)
-        except OSError:
-            pass
+        shutil.rmtree(d, ignore_errors=True)
     outs = [o for o in outs if o is not None]
     if len(outs) < 2:
         chk.machinery('fewer than two batch processes completed')
